@@ -31,7 +31,7 @@ cd /verif
 git -C /repo worktree remove --force $WT
 RES=""
 for c in $CHECKS; do
-  OUT=$(VERIF_SCALE=${VERIF_SCALE:-1} python3 /verif/verif.py selftest $c $DST/patch.diff --tier $TIER 2>&1 | grep -a "SELFTEST\|class=" | head -3)
+  OUT=$(VERIF_SCALE=${VERIF_SCALE:-1} python3 /verif/verif.py selftest $c $DST/patch.diff --tier $TIER 2>&1 | grep -a "SELFTEST\|class=" | cut -c1-400 | (head -2; tail -1))
   echo "check $c ($TIER): $OUT" >> $LOG
   if echo "$OUT" | grep -q CAUGHT; then RES="$RES $c:caught"; else RES="$RES $c:missed"; fi
 done
